@@ -16,13 +16,14 @@ is an explicit `panic` outcome, never totalised silently.  Core Lean only.
 -/
 import AskarModel.Base.Bytes
 import AskarModel.Crypto.Cbc
+import AskarModel.Generated.Flags
 
 namespace Askar.Aead
 open Askar.Crypto
 
 /-- **The one switch for defect D5** (`/verif/proposals/C12-D5.diff`).  `false` = pinned tree: the CBC
     padding verdict is reported before the tag verdict.  Flip to `true` once the fix is applied. -/
-def d5Fixed : Bool := false
+def d5Fixed : Bool := Askar.Generated.Flags.cbcHmacTagFirst
 
 /-! ### outcomes -/
 
